@@ -120,7 +120,8 @@ Unchanged(e) == Combine({EqLL(e.pts[i].a, e.pts[i].b) : i \in 1..Len(e.pts)})
 
 JudgeAddCov(e, noop) ==
     IF noop THEN V(Unchanged(e), None, Pairs(e.frame), None, None)
-    ELSE LET r == CovBest(e) IN V(CovFormula(e, r), CovNeutral(e, r), Pairs(e.frame), None, None)
+    \* ref = the admissible centre under which the event is explained best (reported: which reading the code follows)
+    ELSE LET r == CovBest(e) IN V(CovFormula(e, r), CovNeutral(e, r), Pairs(e.frame), None, None) @@ [ref |-> r]
 
 \* -- remove_covariate_effect: the parameter no longer depends on the covariate (pts: [a1, a2] at two
 \*    values of the covariate); everything else unchanged; undo pairs when it follows its own add
